@@ -26,6 +26,8 @@ func init() {
 			"(environmental, noted in DESIGN.md); timing of the spam loop.",
 		Run: runC13,
 		Mutants: []Mutant{
+			{Name: "short-read-ends-the-responder", File: "internal/layer2/arp.go",
+				Old: "\t\tif errors.Is(err, io.EOF) {\n\t\t\treturn dropReasonClosed", New: "\t\tif errors.Is(err, io.EOF) || errors.Is(err, io.ErrUnexpectedEOF) {\n\t\t\treturn dropReasonClosed", Expect: "KEEPS-SERVING"},
 			{Name: "arp-probes-dropped", File: "internal/layer2/arp.go",
 				Old: "\t// Ignore ARP requests that the announcer tells us to ignore.\n", New: "\tif pkt.SenderIP.IsUnspecified() {\n\t\treturn dropReasonError\n\t}\n\t// Ignore ARP requests that the announcer tells us to ignore.\n", Expect: "no-other-drop"},
 			{Name: "entry-dropped-by-service-count", File: "internal/layer2/announcer.go",
